@@ -65,6 +65,8 @@ func runC12(c *core.Ctx) {
 	ruleMailboxNeverClosed(c)
 	c.Doc("C12.bounded-service", "the goroutine serving an object waits for no client without bound: answers are written with a write deadline, nothing on its path sleeps", 2)
 	ruleBoundedService(c, a, "C12.bounded-service")
+	c.Doc("C12.trace-not-traced", "the trace event is not emitted for the trace signal's own messages (no unbounded self-tracing)", 1)
+	ruleTraceNotTraced(c, "C12.trace-not-traced")
 }
 
 // ruleBusLocks: lock pairing over the whole bus tree and no blocking channel
@@ -682,4 +684,109 @@ func ruleBoundedService(c *core.Ctx, a *epAnchors, rule string) {
 		}
 	}
 	c.Pass(rule, "reachable-set", token.NoPos, fmt.Sprintf("%d functions reachable from the serving goroutine of NewMailBox scanned: %d stream writes, %d sleeps", len(order), nw, ns))
+}
+
+// ruleTraceNotTraced: the trace signal is itself a message sent through the
+// channels of its subscribers, and a channel of a traced object calls Trace
+// for every message it sends.  The function that emits the trace event
+// therefore emits it only for messages whose action is not the trace
+// signal's own (guard in the function, or at every one of its call sites,
+// interface calls included): tracing the trace message recurses without end
+// and the stack overflow takes the server down for everybody.
+func ruleTraceNotTraced(c *core.Ctx, rule string) {
+	// the id under which the trace signal is emitted: UpdateSignal(K, …) in SignalTraceObject
+	var traceID int64 = -1
+	var emitters []*ssa.Function
+	for _, fn := range c.RepoFuncs("bus") {
+		if fn.Name() != "SignalTraceObject" || fn.Parent() != nil || len(fn.Blocks) == 0 || c.IsTestFile(fn) {
+			continue
+		}
+		for _, call := range core.Calls(fn) {
+			cc := call.Common()
+			args := cc.Args
+			mname := ""
+			if cc.IsInvoke() {
+				mname = cc.Method.Name()
+			} else if f := cc.StaticCallee(); f != nil && f.Signature.Recv() != nil && len(args) > 0 {
+				mname = f.Name()
+				args = args[1:]
+			}
+			if mname == "UpdateSignal" && len(args) == 2 {
+				if k, ok := core.ConstInt(args[0]); ok {
+					traceID = k
+					emitters = append(emitters, fn)
+				}
+			}
+		}
+	}
+	if traceID < 0 {
+		c.Undecided(rule, "SignalTraceObject", token.NoPos, "the helper that emits the trace signal was not found")
+		return
+	}
+	actionF := c.Field("bus/net", "Header", "Action")
+	n := 0
+	for _, fn := range c.RepoFuncs("bus") {
+		if c.IsTestFile(fn) || c.InWitness(fn.Pos()) {
+			continue
+		}
+		for _, call := range core.Calls(fn) {
+			cc := call.Common()
+			name := ""
+			if cc.IsInvoke() {
+				name = cc.Method.Name()
+			} else if f := cc.StaticCallee(); f != nil {
+				name = f.Name()
+			}
+			if name != "SignalTraceObject" {
+				continue
+			}
+			n++
+			key := fmt.Sprintf("trace-not-traced@%s", core.FuncKey(fn))
+			isK := func(v ssa.Value) bool { k, ok := core.ConstInt(v); return ok && k == traceID }
+			actionOf := func(root ssa.Value) func(ssa.Value) bool {
+				return func(v ssa.Value) bool {
+					return actionF != nil && isFieldOf(v, actionF) && core.RootOf(v) == root
+				}
+			}
+			ok := false
+			for _, p := range fn.Params {
+				if core.Guarded(fn, call.(ssa.Instruction), core.Ne(actionOf(p), isK)) {
+					ok = true
+				}
+			}
+			why := "guarded by Action != trace signal in the emitting function"
+			if !ok {
+				// every call site of fn, interface calls included (CHA), passes a message
+				// whose action it compared with the trace signal's
+				cg := c.CHA()
+				node := cg.Nodes[fn]
+				ok = node != nil && len(node.In) > 0
+				if node != nil {
+					for _, e := range node.In {
+						if e.Site == nil || e.Caller.Func == nil || !inRepo(e.Caller.Func) {
+							continue
+						}
+						siteOK := false
+						for _, a := range e.Site.Common().Args {
+							if core.Guarded(e.Caller.Func, e.Site.(ssa.Instruction), core.Ne(actionOf(core.RootOf(a)), isK)) {
+								siteOK = true
+							}
+						}
+						if !siteOK {
+							ok = false
+							why = "the trace event is emitted by " + fn.Name() + " for any message, and " + core.FuncKey(e.Caller.Func) + " (" + c.Pos(e.Site.Pos()) + ") calls it without having compared the action with the trace signal's"
+						}
+					}
+				}
+				if ok {
+					why = "every call site compares the action with the trace signal's first"
+				}
+			}
+			c.Check(ok, rule, key, call.Pos(), why,
+				fmt.Sprintf("the trace signal (action %d) is sent through the subscribers' channels, which trace what they send: %s — a client that enables tracing and then subscribes to the trace signal makes every trace event trace itself, without end (stack overflow: the process dies for every client)", traceID, why))
+		}
+	}
+	if n == 0 {
+		c.Undecided(rule, "SignalTraceObject callers", token.NoPos, "nothing emits the trace signal")
+	}
 }
